@@ -142,7 +142,9 @@ def run(module: str, cfg: Optional[str] = None, *, workers: int = 1, env: Option
 
 def must_ok(res: TlcResult, what: str) -> TlcResult:
     if res.rc != 0:
-        tail = "\n".join(res.out.strip().splitlines()[-40:])
+        lines = res.out.strip().splitlines()
+        first = [k for k, ln in enumerate(lines) if ln.startswith("Error:")]
+        tail = "\n".join(lines[first[0]:first[0] + 25] + ["..."] + lines[-8:]) if first else "\n".join(lines[-40:])
         raise TlcError(f"TLC failed for {what} (rc={res.rc}):\n{tail}")
     return res
 
